@@ -36,20 +36,24 @@ RULES = {
     "Z-ser": "rules_serde.rule_z_ser",
     "Z-de": "rules_serde.rule_z_de",
     "H-agree": "rules_hasher.rule_h_agree",
+    "S-grow": "rules_size.rule_s_grow",
+    "S-shrink": "rules_size.rule_s_shrink",
+    "S-reserve": "rules_size.rule_s_reserve",
+    "S-ctor": "rules_size.rule_s_ctor",
 }
 
 # property -> rule ids (quick tier).  Extended as engines land.
 PROPERTY_RULES = {
-    "C01": ["B-any", "B-find", "B-len", "B-clear", "K-new", "K-use", "K-field", "T-grow", "H-agree", "P-zst"],
+    "C01": ["B-any", "B-find", "B-len", "B-clear", "K-new", "K-use", "K-field", "T-grow", "T-assume", "S-shrink", "H-agree", "P-zst"],
     "C02": ["W-bound", "W-reentry", "W-read"],
     "C03": ["M-carry", "T-mover", "T-free", "P-only", "T-grow"],
-    "C04": ["T-grow"],
+    "C04": ["S-grow", "S-shrink", "S-reserve", "T-grow", "M-carry", "T-mover", "P-only"],
     "C05": ["P-rem", "P-fill", "P-only", "P-new", "K-new", "K-use", "K-field", "T-grow", "V-unsafe", "V-unreach", "V-impl"],
     "C06": ["V-own", "B-clear", "B-drain", "B-into", "P-rem", "P-fill"],
     "C07": ["P-rem", "P-fill", "V-own", "H-agree"],
     "C08": ["B-comp", "B-drain", "B-into", "K-field"],
     "C09": ["P-rem", "K-use"],
-    "C10": ["O-wrap"],
+    "C10": ["O-wrap", "S-reserve", "S-grow", "S-ctor", "S-shrink"],
     "C11": ["B-clear", "H-agree"],
     "C12": ["K-new", "K-use", "P-rem", "H-agree"],
     "C13": ["D-set", "E9-set", "E9-bool"],
